@@ -117,6 +117,51 @@ def check(chk, repo, tier):
                                  "lazy views": sorted(lv.views)[:6],
                                  "generators": sorted(lv.nested_gens)})
     chk.floor("catalogued (function, parameter) pairs", n_fn, 25)
+    # x[-n:] with n == 0 is the whole sequence, not the empty one
+    from ..flow import path_conditions
+    seen_fn2 = set()
+    for modname, fname, _ in CATALOGUE:
+        if (modname, fname) in seen_fn2:
+            continue
+        seen_fn2.add((modname, fname))
+        mod = repo.mod(modname)
+        fn = mod.functions[fname]
+        for n in ast.walk(fn):
+            if not (isinstance(n, ast.Subscript) and isinstance(
+                    n.slice, ast.Slice) and n.slice.upper is None
+                    and isinstance(n.slice.lower, ast.UnaryOp)
+                    and isinstance(n.slice.lower.op, ast.USub)):
+                continue
+            e = n.slice.lower.operand
+            if isinstance(e, ast.Constant):
+                continue
+            names = {m.id for m in ast.walk(e) if isinstance(m, ast.Name)}
+            positive = False
+            # the count is a loop variable of range(1, ...), or tested > 0 /
+            # truthy on the path
+            for lp in ast.walk(fn):
+                if isinstance(lp, (ast.For, ast.comprehension)) and isinstance(
+                        lp.target, ast.Name) and lp.target.id in names \
+                        and isinstance(lp.iter, ast.Call) and dotted(
+                        lp.iter.func) == "range" and len(lp.iter.args) >= 2 \
+                        and isinstance(lp.iter.args[0], ast.Constant) \
+                        and isinstance(lp.iter.args[0].value, int) \
+                        and lp.iter.args[0].value >= 1 and isinstance(
+                        e, ast.Name):
+                    positive = True
+            for test, pol in path_conditions(n, fn):
+                t = ast.unparse(test).replace(" ", "")
+                et = ast.unparse(e).replace(" ", "")
+                if pol and t in (et, f"{et}>0", f"{et}>=1", f"0<{et}",
+                                 f"{et}!=0"):
+                    positive = True
+            chk.ob("C14.no-negative-zero-slice",
+                   f"{modname}.{fname}:{ast.unparse(n)[:40]}", positive,
+                   f"`{ast.unparse(n)}` keeps the *whole* sequence when "
+                   f"`{ast.unparse(e)}` is 0 (`x[-0:]` is `x[0:]`): a buffer "
+                   "that should be emptied never shrinks and the generator "
+                   "stops yielding", mod.rel, n.lineno,
+                   witness="Þ∞ 1 l (windows of width 1), second item")
     # bounds and counts written in the program are sympy numbers
     from .c08 import tower_unaware_tests
     seen_fn = set()
